@@ -90,7 +90,16 @@ func loadTerm(outer *Node, wellFormed bool) string {
 		p = pn.S
 		inner = b64Tree(p)
 	}
-	return "(let P := " + lib.CoqStr(p) + " in let t := " + t + " in let tbl := " + tableTerm("P", inner) +
+	// every other string a member could hand to the payload field (names matching "payload" case-insensitively)
+	tbl := tableTerm("P", inner)
+	for _, m := range outer.Obj {
+		if m.Val.Kind == KStr && m.Val.S != p && strings.EqualFold(m.Key, "payload") {
+			if in2 := b64Tree(m.Val.S); in2 != nil {
+				tbl = "(fun s : str => if str_eqb s " + lib.CoqStr(m.Val.S) + " then Some " + in2.Coq() + " else " + tbl + " s)"
+			}
+		}
+	}
+	return "(let P := " + lib.CoqStr(p) + " in let t := " + t + " in let tbl := " + tbl +
 		" in show_res show_loaded (load_metadata tbl (Some t)) ++ [124] ++ show_res show_loaded (metablock_load GNil (Some t)))"
 }
 
